@@ -1,5 +1,6 @@
 import AsmjitVerif.Spec.RWCover
 import AsmjitVerif.Model.X86RW
+import AsmjitVerif.Gen.X86Sig
 import Driver.Common
 open Spec.RWCover
 namespace Driver.C12
@@ -73,6 +74,6 @@ def step (t : Tables) (line : String) : Tables × String :=
 def main : IO Unit := do
   let stdin ← IO.getStdin
   let stdout ← IO.getStdout
-  lineLoop stdin stdout Model.X86RW.Tables.empty step
+  lineLoop stdin stdout { Model.X86RW.Tables.empty with sig := AsmjitVerif.Gen.X86Sig.tables } step
 
 end Driver.C12
